@@ -339,8 +339,8 @@ class NugetVersion(Version):
     @classmethod
     def is_valid(cls, string):
         try:
-            cls.build_value(string)
-            return True
+            # from_string() returns None for an empty string
+            return cls.build_value(string) is not None
         except ValueError:
             return False
 
